@@ -1764,3 +1764,185 @@ class WriteTryExceptError(WriteMapError):
 
 
 KERNELS.append(WriteTryExceptError)
+
+
+# ------------------------------------------------------------------ key-set reconciliation (C10: children mirror the live keys)
+#
+# keys_set: per slot live(s) / occupied(s); the entry store: per slot entry_null(s), has_graph(s), started(s).
+# Mirror: after reconciliation a child is started in slot s  <=>  s is a live key slot.
+
+
+class KeysSet(Obj):
+    cls = "TSSDataView(keys)"
+
+    def __init__(self, k):
+        Obj.__init__(self, name="keys_set")
+        self.k = k
+
+    def m_slot_capacity(self, I, a, n):
+        return self.k.kcap
+
+    def m_slot_live(self, I, a, n):
+        return self.k.key_live[I.ctx.rv(a[0])]
+
+    def m_at_slot(self, I, a, n):
+        return KeyOf(self.k, I.ctx.rv(a[0]))
+
+
+class ReconEntries(Obj):
+    cls = "InPlaceGraphSlotStore"
+
+    def __init__(self, k):
+        Obj.__init__(self, name="entries")
+        self.k = k
+
+    def m_slot_capacity(self, I, a, n):
+        return self.k.gg(I.ctx, "ecap")
+
+    def m_reserve_to(self, I, a, n):
+        ctx = I.ctx
+        v = ctx.rv(a[0])
+        old = self.k.gg(ctx, "ecap")
+        ctx.write(Loc((self.k.g.oid, "ecap")), z3.If(v > old, v, old))
+        return VOID
+
+    def m_entry_at(self, I, a, n):
+        s = I.ctx.rv(a[0])
+        return Ptr(ReconEntry(self.k, s), self.k.gg(I.ctx, "enull")[s])
+
+
+class ReconEntry(Obj):
+    cls = "MapKeyEntry"
+
+    def __init__(self, k, slot):
+        Obj.__init__(self, name="entry")
+        self.k, self.slot = k, slot
+
+    def member(self, ctx, name, node):
+        if name == "graph":
+            return ReconGraph(self.k, self.slot)
+        raise Gap("entry member %s" % name)
+
+
+class ReconGraph(Obj):
+    cls = "GraphValue(child)"
+
+    def __init__(self, k, slot):
+        Obj.__init__(self, name="child_graph")
+        self.k, self.slot = k, slot
+
+    def m_has_value(self, I, a, n):
+        return self.k.gg(I.ctx, "hasg")[self.slot]
+
+    def m_view(self, I, a, n):
+        o = Obj("GraphView", "child")
+        o.m_started = lambda I_, a_, n_: self.k.gg(I_.ctx, "started")[self.slot]
+        return o
+
+
+class ReconcileCompatibleKeySource(MapKernel):
+    name = "map_node.cpp:reconcile_compatible_key_source"
+    fn_name = "reconcile_compatible_key_source"
+    filter = "reconcile_compatible_key_source"
+    property_ids = ("C10",)
+    title = "reconcile_compatible_key_source: afterwards a child is started in a slot exactly when the slot holds a live key"
+
+    def setup(self, I):
+        ctx = I.ctx
+        self.base(I)
+        g = self.g
+        self.kcap = z3.Int("keys_slot_capacity")
+        self.key_live = z3.Array("key_slot_live", I_, B_)
+        self.ecap0 = z3.Int("entries_slot_capacity0")
+        ctx.assume(z3.And(self.kcap >= 0, self.ecap0 >= 0))
+        ctx.assume(z3.ForAll([qs], z3.Implies(self.key_live[qs], z3.And(qs >= 0, qs < self.kcap))))
+        self.enull0, self.hasg0 = z3.Array("entry_null0", I_, B_), z3.Array("entry_has_graph0", I_, B_)
+        ctx.assume(z3.ForAll([qs], z3.And(z3.Implies(z3.Not(self.enull0[qs]), z3.And(qs >= 0, qs < self.ecap0)),
+                                          z3.Implies(self.started0[qs], z3.And(z3.Not(self.enull0[qs]), self.hasg0[qs])))))
+        ctx.store[(g.oid, "ecap")] = self.ecap0
+        ctx.store[(g.oid, "enull")] = self.enull0
+        ctx.store[(g.oid, "hasg")] = self.hasg0
+        ctx.store[(g.oid, "creates")] = z3.K(I_, z3.IntVal(0))
+        ctx.store[(g.oid, "removes")] = z3.K(I_, z3.IntVal(0))
+        ctx.store[(self.st.oid, "entries")] = ReconEntries(self)
+        cx = Obj("MapNodeContext", "context")
+        return None, {"view": self.view, "context": cx, "storage": self.st, "keys_set": KeysSet(self), "evaluation_time": self.T}
+
+    # callees
+    def f_begin_map_output_mutation(self, I, a, n):
+        return Opt(I.ctx.fresh("has_output_mutation", "bool"), Obj("TSDDataMutationView", "output_mutation"))
+
+    f_begin_map_error_mutation = f_begin_map_output_mutation
+
+    def f_remove_entry_at_slot(self, I, a, n):
+        """contract (RemoveAllEntries executes the real body in place): the slot's child is stopped if it was started; a child
+        stop failure propagates"""
+        ctx = I.ctx
+        s = ctx.rv(a[5])
+        ctx.write(Loc((self.g.oid, "removes")), z3.Store(self.gg(ctx, "removes"), s, self.gg(ctx, "removes")[s] + 1))
+        ctx.write(Loc((self.g.oid, "started")), z3.Store(self.gg(ctx, "started"), s, False))
+        if ctx.choose(2, "remove_entry_at_slot outcome") == 1:
+            I.throw_from_callee("child.stop")
+        return VOID
+
+    def f_create_entry_at_slot(self, I, a, n):
+        """contract proved by CreateEntryAtSlot: on success the slot holds a constructed, started child; on failure nothing is
+        left started in that slot"""
+        ctx = I.ctx
+        s = ctx.rv(a[5])
+        ctx.oblige("callee-pre.create_entry_at_slot:only-for-a-live-key-slot", self.key_live[s], kind="callee-pre")
+        ctx.write(Loc((self.g.oid, "creates")), z3.Store(self.gg(ctx, "creates"), s, self.gg(ctx, "creates")[s] + 1))
+        if ctx.choose(2, "create_entry_at_slot outcome") == 1:
+            ctx.write(Loc((self.g.oid, "started")), z3.Store(self.gg(ctx, "started"), s, False))
+            I.throw_from_callee("create_entry_at_slot")
+        for nm, val in (("enull", False), ("hasg", True), ("started", True)):
+            ctx.write(Loc((self.g.oid, nm)), z3.Store(self.gg(ctx, nm), s, val))
+        old = self.gg(ctx, "ecap")
+        ctx.write(Loc((self.g.oid, "ecap")), z3.If(s + 1 > old, s + 1, old))
+        return VOID
+
+    def common_inv(self, ctx):
+        enull, hasg, started = self.gg(ctx, "enull"), self.gg(ctx, "hasg"), self.gg(ctx, "started")
+        yield "entries-inside-the-store;started=>constructed", z3.ForAll([qs], z3.And(
+            z3.Implies(z3.Not(enull[qs]), z3.And(qs >= 0, qs < self.gg(ctx, "ecap"))),
+            z3.Implies(started[qs], z3.And(z3.Not(enull[qs]), hasg[qs]))))
+
+    def inv_remove(self, I, ctx):
+        s = self.local(I, "slot")
+        started = self.gg(ctx, "started")
+        yield from self.common_inv(ctx)
+        yield "slot-range", z3.And(s >= 0, s <= self.gg(ctx, "ecap"), self.gg(ctx, "ecap") == self.ecap0,
+                                   self.gg(ctx, "enull") == self.enull0)
+        yield "no-child-left-started-in-a-dead-slot-below-the-cursor[C10]", z3.ForAll([qs], z3.And(
+            z3.Implies(z3.And(qs >= 0, qs < s, z3.Not(self.key_live[qs])), z3.Not(started[qs])),
+            z3.Implies(z3.Or(qs >= s, self.key_live[qs]), started[qs] == self.started0[qs])))
+
+    def inv_create(self, I, ctx):
+        s = self.local(I, "slot")
+        started = self.gg(ctx, "started")
+        yield from self.common_inv(ctx)
+        yield "slot-range", z3.And(s >= 0, s <= self.kcap)
+        yield "dead-slots-have-no-started-child[C10]", z3.ForAll([qs], z3.Implies(z3.Not(self.key_live[qs]), z3.Not(started[qs])))
+        yield "live-slots-below-the-cursor-have-a-started-child[C10]", z3.ForAll([qs], z3.Implies(
+            z3.And(qs >= 0, qs < s, self.key_live[qs]), started[qs]))
+
+    def frame(self, I, ctx):
+        return [Loc((self.g.oid, nm)) for nm in ("started", "enull", "hasg", "ecap", "creates", "removes")]
+
+    @property
+    def loops(self):
+        return {0: LoopSpec(self.inv_remove, self.frame), 1: LoopSpec(self.inv_create, self.frame)}
+
+    def post(self, I, ret):
+        ctx = I.ctx
+        started = self.gg(ctx, "started")
+        ctx.oblige("ensures.a-child-is-started-in-a-slot<=>the-slot-holds-a-live-key[C10 the set of children follows the key set: "
+                   "removed keys' children are stopped, new keys get a child]",
+                   z3.ForAll([qs], started[qs] == self.key_live[qs]), kind="post-normal")
+
+    def post_exc(self, I, exc):
+        I.ctx.oblige("raises.only-a-child-lifecycle-failure", z3.BoolVal(exc.origin in ("child.stop", "create_entry_at_slot")),
+                     kind="post-exceptional")
+
+
+KERNELS.append(ReconcileCompatibleKeySource)
